@@ -10,6 +10,7 @@ from vlib.ref import bip32 as R
 from vlib.util import call, expect_eq
 
 PROPERTY_ID = "C01"
+OPTIMIZED = ['prf-corners']   # clauses run a second time under `python -O` (assert statements stripped)
 RULE = ("parents (k, c, depth, index, parent fingerprint, network) from a mixture of scalar classes, built "
         "three ways (32-byte key, 00||k key, parsed from the reference xprv); child index from both sides of "
         "2^31; oracle = independent CKDpriv (own secp256k1, own Base58Check); PRF substituted from outside for "
@@ -102,6 +103,18 @@ def check_step(case, ctx):
         if st_ == "exc":
             raise Violation("C01/step/raised", "%s raised %r" % (what, child))
         compare_node("C01/step", what, child, rc, p["testnet"])
+    # a bulk request that straddles the hardened boundary: each child commits to the right parent encoding
+    if case.get("straddle", i % 4 == 0):
+        node = impl_parents(p)[i % 3][1]
+        st_, kids = call(node.generate_children, (H - 2, H + 2))
+        if st_ == "exc":
+            raise Violation("C01/step/raised", "generate_children((2^31-2, 2^31+2)) raised %r" % (kids,))
+        for j, kid in enumerate(kids):
+            try:
+                rk = R.ckd_priv(rp, H - 2 + j)
+            except R.Invalid:
+                continue
+            compare_node("C01/bulk-straddling", "generate_children((2^31-2, 2^31+2))[%d]" % j, kid, rk, p["testnet"])
     # same scalar with another chain code, same chain code with another scalar, in the same process
     Prv = _impl()
     for label, k2, c2 in (("other-chain-code", p["k"], bytes([p["c"][0] ^ 1]) + p["c"][1:]),
@@ -163,7 +176,6 @@ def check_path(case, ctx):
         # nothing but the returned node is kept alive (root and intermediate nodes are dropped)
         if path:
             st_, lone = call(lambda: dict(impl_parents(p))[form].derive_path(list(path)))
-            gc.collect()
             if st_ == "exc":
                 raise Violation("C01/path/raised", "derive_path(%r) on a temporary root raised %r" % (path, lone))
             compare_node("C01/derive_path-temporary-root", "derive_path(%s) from a %s root that is not kept alive"
@@ -291,19 +303,19 @@ def clauses():
                "non-trivial = boundary index, non-uniform scalar class, or IL + k wraps past n",
                gen=lambda tier: st.fixed_dictionaries({"parent": parents(), "i": S.indexes()}),
                nontrivial=nt_step, classes=classes_step,
-               n={"quick": 4000, "thorough": 150000}, shards={"quick": 16, "thorough": 16}),
+               n={"quick": 2400, "thorough": 150000}, shards={"quick": 16, "thorough": 16}),
         Clause("path", check_path,
                "root + index list of length 0..8 compared at every intermediate node, and derive_path(list) on a "
                "fresh root; non-trivial = length >= 2 with a hardened and a normal index",
                gen=lambda tier: st.fixed_dictionaries({"parent": parents(), "path": st.lists(S.indexes(), max_size=8)}),
                nontrivial=lambda c: len(c["path"]) >= 2 and any(i >= H for i in c["path"]) and any(i < H for i in c["path"]),
                classes=lambda c: ["len=%d" % min(len(c["path"]), 4)],
-               n={"quick": 400, "thorough": 10000}, shards={"quick": 16, "thorough": 16}),
+               n={"quick": 240, "thorough": 10000}, shards={"quick": 16, "thorough": 16}),
         Clause("prf-corners", check_prf,
                "HMAC-SHA512 replaced for the case by a recording stub returning a chosen IL||IR: child key driven to "
                "1, n-1, tiny, leading-zero and uniform values, IL in {0,1,2,n-1,n-2}; only outputs BIP32 calls valid; "
                "checks HMAC key = parent chain code and data = 00||ser256(k)||ser32(i) (hardened) / "
                "serP(kG)||ser32(i) (normal); non-trivial = every case (distinct by parent, index, IL)",
                gen=gen_prf, classes=classes_prf,
-               n={"quick": 3000, "thorough": 50000}, shards={"quick": 16, "thorough": 16}),
+               n={"quick": 2400, "thorough": 50000}, shards={"quick": 16, "thorough": 16}),
     ]
